@@ -9,6 +9,7 @@ import OlVerif.Lower.Binders
 import OlVerif.Sem.Decide
 import OlVerif.Api.Model
 import OlVerif.Ctrl.Run
+import OlVerif.Import.Bridge
 
 namespace OlVerif
 open Lean
@@ -104,7 +105,9 @@ def opLower (j : Json) : Json :=
         -- `simple`: the hypothesis of C01.module_straightline_semantics (M-EVAL), evaluated on this program
         ("simple", .bool (Sem.simpleModuleB body)),
         -- `simple_w`: the hypothesis of C01.module_with_while_semantics
-        ("simple_w", .bool (Sem.simpleModuleWB body))])
+        ("simple_w", .bool (Sem.simpleModuleWB body)),
+        -- `imp_ok`: the hypothesis of C14.plan_is_model (text-level = path-level view of every imported name)
+        ("imp_ok", .bool (importsOKL body))])
     | .error err => pure (Json.mkObj [("err", .str err.cls), ("bad", .bool (badModule body))])
   match r with
   | .ok j => j
